@@ -86,6 +86,17 @@ def value_bytes(arr):
     return [raw[i * w:(i + 1) * w].hex() for i in range(len(arr))]
 
 
+def scalar_hex(v):
+    """hex of the canonical bytes of one element returned by channel[i]"""
+    from nptdms.timestamp import TdmsTimestamp
+    if isinstance(v, str):
+        return v.encode("utf-8").hex()
+    if isinstance(v, TdmsTimestamp):
+        return struct.pack("<Qq", int(v.second_fractions), int(v.seconds)).hex()
+    a = np.array([v])
+    return a.astype(a.dtype.newbyteorder("<"), copy=False).tobytes().hex()
+
+
 def prop_value(val):
     """(kind, payload) of a property value object returned by npTDMS"""
     from nptdms.timestamp import TdmsTimestamp
